@@ -355,6 +355,13 @@ func Eval(in *Input) *Result {
 				nt := &Item{Path: it.Path, Tags: copyMap(it.Tags), Audit: it.Audit, Producer: it.Producer}
 				for _, tr := range p.Tags {
 					v := TagValue(tr.Rule, it.Path)
+					if tr.Rule == "blank" {
+						// attached with an empty value; an empty value never overrides, and is overridden by, a later one
+						if _, has := nt.Tags[tr.Key]; !has {
+							nt.Tags[tr.Key] = ""
+						}
+						continue
+					}
 					if v == "" {
 						continue // the map function returned no such tag for this file
 					}
